@@ -440,7 +440,7 @@ Definition loc_enc (o : option name) (vs : list val) : res (list Z) :=
 (* ------------------------------------------------------------------ OPT / EDNS options *)
 (* dns/rdtypes/ANY/OPT.py + dns/edns.py.  Value: [VL [[VI otype; VB payload]...]] where payload is
    the option's own to_wire() (the harness reads it back like that), i.e. the NORMALISED option
-   data: ECS address bits beyond the source prefix cleared, one trailing NUL of EDE text dropped,
+   data: ECS address bits beyond the source prefix cleared, trailing NULs of EDE text dropped,
    a REPORTCHANNEL name uncompressed. *)
 
 Definition cont (b : Z) : bool := (128 <=? b) && (b <=? 191).
@@ -508,7 +508,9 @@ Definition opt_norm (ot : Z) (d : list Z) : option (list Z) :=
   else if ot =? 15 then
     match d with
     | c1 :: c2 :: text =>
-        let text' := match rev text with 0 :: r => rev r | _ => text end in
+        (* text.rstrip(b"\x00") (after fix 2815f69; before, only ONE trailing NUL was dropped and
+           the option's own encoding decoded to a different option) *)
+        let text' := strip0 text in
         if utf8 text' then Some (c1 :: c2 :: text') else None
     | _ => None
     end
